@@ -336,6 +336,18 @@ func runRequestWriter(r *hk.Run, rng *hk.Rand) {
 		for j := 0; j < k; j++ {
 			req := writerRequest(rng, fmt.Sprintf("s%d-%d", i, j))
 			var c collector
+			if rng.Chance(12) { // refused before anything reaches the shared buffer: the next request is unaffected
+				if rng.Bool() {
+					req.Header.Add("X-Bad", "a\nb")
+				} else {
+					req.Header["X Bad"] = []string{"v"}
+				}
+				if err := w.WriteHeaders(&c, req, false); err == nil || len(c.b) != 0 {
+					r.Fail(hk.Failure{Sig: "enc:h3:writer-seq:invalid-accepted", What: "a request with an invalid header field was written to the stream", Input: map[string]interface{}{"header": fmt.Sprint(req.Header)}, Got: fmt.Sprintf("%x %v", capBytes(c.b, 64), err)})
+				}
+				r.Count("enc.h3.writer.seq.refused-invalid")
+				continue
+			}
 			err := w.WriteHeaders(&c, req, false)
 			desc := map[string]interface{}{"kind": "h3-writer-seq", "position": j, "url": req.URL.String(), "header": fmt.Sprint(req.Header)}
 			r.Count("enc.h3.writer.seq")
@@ -471,9 +483,21 @@ func runH2EncoderSeq(r *hk.Run, rng *hk.Rand) {
 				x.req.Header.Add("X-Bad", "a\nb"+tag)
 			}
 		}
+		if rng.Chance(20) { // RFC 9113 §8.2.3: the Cookie field may be split into one field per cookie-pair
+			x.req.Header.Add("Cookie", hk.Pick(rng, []string{"a=1; b=2; c=" + tag, "sid=" + tag + ";theme=dark", "only=" + tag, "a=1;  b=2"}))
+			if rng.Chance(30) {
+				x.req.Header.Add("Cookie", "second=line; z="+tag)
+			}
+		}
 		x.want = [][2]string{{":authority", x.req.URL.Host}, {":method", x.req.Method}, {":path", x.req.URL.RequestURI()}, {":scheme", "https"}}
 		for k, vv := range x.req.Header {
 			for _, v := range vv {
+				if k == "Cookie" {
+					for _, crumb := range strings.Split(v, ";") {
+						x.want = append(x.want, [2]string{"cookie", strings.TrimLeft(crumb, " ")})
+					}
+					continue
+				}
 				x.want = append(x.want, [2]string{strings.ToLower(k), v})
 			}
 		}
